@@ -2,7 +2,7 @@ NOTES = "See DESIGN.md. exit 2 from a check means UNDECIDED (lost anchor, unsupp
 CHECKS = {
  "C06": dict(category="proof",
    text="Verus proves, for all u64 ids and all sequencer states, that the real spot and USD-futures sequencer functions admit an update iff it is not stale and the venue rule holds, return a terminal InvalidSequence error on every break and leave the state unchanged on drop/error; history lemmas over these contracts give the unbroken-chain and no-false-alarm claims. Every clause is an obligation discharged on each run from functions extracted from /repo.",
-   note="Trusted: Verus/Z3, the extractor, shims for DateTime/SmolStr/Decimal (opaque). Preconditions last_update_id<u64::MAX, updates_processed<u64::MAX (the code adds 1). Not decided: the stream layer that ends a connection on a terminal error (C12), OrderBook::new sorting (C05, assumed).")
+   note="Trusted: Verus/Z3, the extractor, shims for DateTime/SmolStr/Decimal (opaque). Preconditions last_update_id<u64::MAX, updates_processed<u64::MAX (the code adds 1). Not decided: the stream layer that ends a connection on a terminal error (C12), OrderBook::new sorting (C05, assumed)."),
  "C01": dict(category="proof",
    text="Verus proves the lifecycle contract (written from the statement) on the real bodies of Orders::update_from_order_snapshot, update_from_cancel_response, record_in_flight_cancel and record_in_flight_open and their callees, over the whole map view: frame (other orders untouched), timestamp monotonicity of the held exchange data, untracking on inactive / nothing-left reports and confirmed cancels, restoration of the confirmed open state on a failed cancel - for every map content, report kind, timestamp and fill level. History claims follow by induction over the per-call contracts.",
    note="Trusted: Verus/Z3, extractor, shims (Decimal as exact real, DateTime as integer, FnvHashMap+entry API as mathematical map, structural Clone), dropped tracing macros, verification at the engine's type instantiation (ExchangeIndex, InstrumentIndex). A stale zero-remaining report and a failed cancel of an order with no confirmed open state are left unconstrained (the statement is silent). Routing layers InstrumentState/EngineState::update_from_account are covered under C09."),
